@@ -34,6 +34,19 @@ pub fn decode(tape: &[u32]) -> (StateCase, Value) {
                 *p0 = None;
             }
         }
+        if t.chance(1, 8) {
+            // deep call chain: N x `JSR #0`, then a RET that returns to itself and pops one frame per step
+            let n = 100 + t.pick(80);
+            let at = 0x4000u16;
+            for i in 0..n {
+                c.spec.overlay.push((at + i as u16, 0x4800));
+            }
+            c.spec.overlay.push((at + n as u16, 0xC1C0));
+            c.spec.pc = at;
+            c.spec.kbd_ie = false;
+            c.steps = 2 * n + 4;
+            c.plan = vec![None; c.steps];
+        }
         let d = describe_state(&c);
         (c, d)
     } else {
@@ -100,6 +113,9 @@ pub fn check(tape: &[u32], st: &mut Stats) -> Result<(), String> {
     if max_depth >= 3 {
         st.class("depth>=3");
     }
+    if max_depth >= 130 {
+        st.class("depth>=130");
+    }
     if underflow {
         st.class("return-at-depth-0");
     }
@@ -135,13 +151,13 @@ pub fn describe(tape: &[u32]) -> Value {
 pub fn run(ctx: &Ctx) -> Outcome {
     let mut out = Outcome::new(
         "generated user programs with nested JSR/JSRR subroutines (R7 saved on the stack), I/O traps (which nest further traps inside the OS), top-level RETs (underflow), scheduled interrupts, registered calling-convention and pass-by-register signatures, \
-         debug frames on/off, real/virtual traps - plus raw machine states (a third of them with a JSRR call gadget to a calling-convention subroutine while R6 sits at xFFFB..xFFFF, x0000 or the I/O border) - stepped in lock step with the reference machine; after every step frame_stack.len() must equal the model's saturating depth and, with debug frames, the frame list must be equal element-wise \
+         debug frames on/off, real/virtual traps - plus raw machine states (an eighth of them a chain of 100-180 nested calls unwound completely; a third of them with a JSRR call gadget to a calling-convention subroutine while R6 sits at xFFFB..xFFFF, x0000 or the I/O border) - stepped in lock step with the reference machine; after every step frame_stack.len() must equal the model's saturating depth and, with debug frames, the frame list must be equal element-wise \
          (caller, callee, kind, frame pointer, argument values); non-trivial = depth >= 2 reached or a return executed at depth 0; distinct by tape",
     );
     let cfg = TapeCfg::new(ctx, 1500, 60_000, 600);
     out.shards = cfg.shards;
     out.absorb(tape_search(ctx, "main", &cfg, check, describe));
-    out.essential = ["debug-frames-on", "debug-frames-off", "depth>=2", "depth>=3", "return-at-depth-0", "frame-with-arguments", "argument-block-reaches-top-of-memory", "subroutine-frame", "trap-frame", "interrupt-frame"].iter().map(|s| s.to_string()).collect();
+    out.essential = ["debug-frames-on", "debug-frames-off", "depth>=2", "depth>=3", "depth>=130", "return-at-depth-0", "frame-with-arguments", "argument-block-reaches-top-of-memory", "subroutine-frame", "trap-frame", "interrupt-frame"].iter().map(|s| s.to_string()).collect();
     out
 }
 
